@@ -891,6 +891,7 @@ def run(ctx):
                 'exact ties of the 4-decimal rounding, +-0.0, tiny negatives; 20% malformed blobs (non-uniform flags, '
                 'too many runners-up, unknown nodes, runner-up keys on inferred levels / absent on direct ones, '
                 'missing / extra levels, empty result list) compared with the model only. '
+                '(ii) the JSON / CSV / HDF5 files and the embedded taxonomy of real run_mapping runs (incl. flatten and drop_level). '
                 'non-trivial = well-formed blob with >= 2 levels and >= 2 cells / permutation of >= 3 ids / tree '
                 'with >= 2 levels')
     ctx.assumptions += [
@@ -908,6 +909,10 @@ def run(ctx):
     blob_cases(ctx)
     reorder_cases(ctx)
     tree_cases(ctx)
+    # (ii) the three files of real mapping runs (hierarchical, flattened, with a dropped level): the HDF5 output read
+    # back and the CSV tell the JSON's story, the embedded taxonomy is the stored taxonomy without its cells
+    from harness import mapcheck
+    mapcheck.run_batch(ctx, ctx.n(12, 150), ('c15-',), 'files', max_levels=4)
 
 
 def replay(ctx, rec):
